@@ -84,7 +84,8 @@ Inductive out :=
 | ODiscarded (k : key)
 | OCommitted (k : key) (v : val)
 | OUpdated (k : key) (v : val)
-| OInvalid.                               (* the op names an object the client does not hold *)
+| OInvalid                                (* the op names an object the client does not hold *)
+| OFault (k : key).                       (* OSError: the file system refused the write of k's document (injected fault) *)
 
 (* get_identifiable_by_hash, the part under _object_cache_lock.  [v] is the content loaded from the
    document before the lock was taken.  retain = false: the caller drops a new object at once (iteration). *)
@@ -115,6 +116,18 @@ Definition add (s : st) (i : iid) (x : oid) : st * out :=
     else (mkst (aset k (oval ob) (fs s)) (aset x (mkobj k (oval ob) (SFile k)) (heap s))
                (aset i (aset k x (cache_of s i)) (caches s)) (next s),
           OAdded k (oval ob))
+  end.
+
+(* add() while the file system refuses the write (open of the temporary file, write, or os.replace
+   raises OSError; which one is [p], the model does not distinguish them): the existence check comes
+   first (KeyError as usual); otherwise _write_document raises after removing its temporary file, and
+   the statements after it - cache insertion, generate_source - are never reached. *)
+Definition add_fault (s : st) (i : iid) (x : oid) (p : nat) : st * out :=
+  match alookup x (heap s) with
+  | None => (s, OInvalid)
+  | Some ob =>
+    let k := okey ob in
+    if amem k (fs s) then (s, ODup k) else (s, OFault k)
   end.
 
 Definition discard (s : st) (i : iid) (x : oid) : st * out :=
@@ -153,7 +166,8 @@ Inductive op :=
 | Update (x : oid)
 | ClearSource (x : oid)            (* x.source = "" *)
 | Drop (x : oid)                   (* last reference dropped, object collected *)
-| Reopen (i : iid).                (* instance i replaced by a freshly opened one *)
+| Reopen (i : iid)                 (* instance i replaced by a freshly opened one *)
+| AddFault (i : iid) (x : oid) (p : nat).   (* add() with an OSError injected at point p of the document write *)
 
 Definition step (s : st) (o : op) : st * out :=
   match o with
@@ -191,6 +205,7 @@ Definition step (s : st) (o : op) : st * out :=
                      end
   | Drop x => (mkst (fs s) (aremove x (heap s)) (caches s) (next s), OUnit)
   | Reopen i => (mkst (fs s) (heap s) (aset i [] (caches s)) (next s), OUnit)
+  | AddFault i x p => add_fault s i x p
   end.
 
 Fixpoint exec (s : st) (ops : list op) : st :=
@@ -226,6 +241,7 @@ Definition pstep (m : pmap) (r : out) : option pmap :=
   | ONat n => if Nat.eqb n (List.length m) then Some m else None
   | OList l => if kv_eqb (strip l) m then Some m else None
   | OUnit | OInvalid => Some m
+  | OFault k => if amem k m then None else Some m     (* a refused write: the id was free and stays free *)
   end.
 Fixpoint replay (m : pmap) (rs : list out) : option pmap :=
   match rs with
